@@ -62,6 +62,25 @@ type ApplySpec struct {
 	Line  int
 }
 
+// Ghost state: specification-only integer variables. "ghost g int = e" declares g with its value at
+// entry; "ghost before|after "text"#n: g = e" assigns it at a program point. Ghost variables are
+// part of the symbolic state (merged at joins, havocked at the head of a loop that assigns them) and
+// never influence the executable code.
+type GhostVar struct {
+	Name string
+	Init *Clause
+	Line int
+}
+
+type GhostSet struct {
+	Where  string
+	Text   string
+	Ord    int
+	Name   string
+	Clause *Clause
+	Line   int
+}
+
 type AssertSpec struct {
 	Where  string // "after" | "before"
 	Text   string // snippet of source line
@@ -85,6 +104,8 @@ type Contract struct {
 	Props     []string
 	Trusted   string // non-empty: contract is assumed, with this reason
 	Asserts   []*AssertSpec
+	Ghosts    []*GhostVar
+	GhostSets []*GhostSet
 	Split     *SplitSpec
 	Line      int
 	NoSafety  bool
@@ -115,6 +136,7 @@ type Lemma struct {
 	// at Induct-1; InductFrom is a lower bound of Induct implied by the hypotheses (well-foundedness).
 	Induct     string
 	InductFrom *Clause
+	Depth      int // unfolding depth of fold applications in this lemma (default 2)
 }
 
 // Fold: a recursive specification function over the first n elements of a byte sequence,
@@ -136,7 +158,7 @@ type ContractFile struct {
 	Folds  []*Fold
 }
 
-var kwRe = regexp.MustCompile(`^(induct|alias|fold|init|step|define|limit|apply|mention|cut|func|lemma|mode|returns|logical|requires|ensures|loop|call|waive|panics|props|trusted|assert|assume|split|nosafety|forall|hyp|holds|export|uses|assigns)\b`)
+var kwRe = regexp.MustCompile(`^(depth|ghost|induct|alias|fold|init|step|define|limit|apply|mention|cut|func|lemma|mode|returns|logical|requires|ensures|loop|call|waive|panics|props|trusted|assert|assume|split|nosafety|forall|hyp|holds|export|uses|assigns)\b`)
 
 func parseContractFile(path string) (*ContractFile, error) {
 	f, err := os.Open(path)
@@ -292,6 +314,8 @@ func parseContractFile(path string) (*ContractFile, error) {
 				lem.Goal = c
 			case "props":
 				lem.Props = strings.Fields(rest)
+			case "depth":
+				fmt.Sscanf(rest, "%d", &lem.Depth)
 			case "export":
 				lem.Export = true
 			case "induct":
@@ -408,7 +432,7 @@ func parseContractFile(path string) (*ContractFile, error) {
 			h.Binds[m[4]] = c
 		case "waive":
 			// waive kind at "text": reason
-			m := regexp.MustCompile(`^([a-z0-9]+)(\s+at\s+"([^"]*)")?\s*:\s*(.*)$`).FindStringSubmatch(rest)
+			m := regexp.MustCompile(`^([a-z0-9-]+)(\s+at\s+"([^"]*)")?\s*:\s*(.*)$`).FindStringSubmatch(rest)
 			if m == nil {
 				return nil, fail("bad waive clause")
 			}
@@ -433,6 +457,28 @@ func parseContractFile(path string) (*ContractFile, error) {
 			cur.Uses = append(cur.Uses, strings.Fields(rest)...)
 		case "assigns":
 			cur.Assigns = append(cur.Assigns, strings.Fields(rest)...)
+		case "ghost":
+			if m := regexp.MustCompile(`^([A-Za-z_][A-Za-z0-9_]*)\s+int\s*=\s*(.*)$`).FindStringSubmatch(rest); m != nil {
+				c, err := mkClause(m[2], it.line)
+				if err != nil {
+					return nil, err
+				}
+				cur.Ghosts = append(cur.Ghosts, &GhostVar{Name: m[1], Init: c, Line: it.line})
+				break
+			}
+			m := regexp.MustCompile(`^(after|before)\s+"([^"]*)"(#(\d+))?\s*:\s*([A-Za-z_][A-Za-z0-9_]*)\s*=\s*(.*)$`).FindStringSubmatch(rest)
+			if m == nil {
+				return nil, fail("bad ghost clause")
+			}
+			ord := 1
+			if m[4] != "" {
+				ord, _ = strconv.Atoi(m[4])
+			}
+			c, err := mkClause(m[6], it.line)
+			if err != nil {
+				return nil, err
+			}
+			cur.GhostSets = append(cur.GhostSets, &GhostSet{Where: m[1], Text: m[2], Ord: ord, Name: m[5], Clause: c, Line: it.line})
 		case "assert", "assume":
 			// assert after "text"#k: expr
 			m := regexp.MustCompile(`^(after|before)\s+"([^"]*)"(#(\d+))?\s*:\s*(.*)$`).FindStringSubmatch(rest)
